@@ -45,6 +45,11 @@ var c07Known = []string{
 	"SELECT t.i, u.i FROM t.csv t JOIN t.csv u ON COALESCE(t.n, u.n) = 1", "SELECT t.i FROM t.csv t LEFT JOIN t.csv u ON COALESCE(t.n, u.n) = 1",
 	"SELECT t.i FROM t.csv t JOIN t.csv u ON (t.k, t.n) = (u.k, u.n)", "SELECT t.i FROM t.csv t JOIN t.csv u ON t.k = u.k AND t.n IN (SELECT n FROM t.csv z WHERE z.k = u.k)",
 	"SELECT t.id FROM j.json t JOIN j.json u ON t.o->x = u.o->x",
+	// join predicates whose operands mix the two inputs (key extraction / branch push-down must leave them alone)
+	"SELECT t.i FROM t.csv t JOIN t.csv u ON t.k = t.n + u.n", "SELECT t.i FROM t.csv t JOIN t.csv u ON t.n + u.n = t.k", "SELECT t.i FROM t.csv t JOIN t.csv u ON t.k = u.k WHERE t.n = t.k + u.k",
+	"SELECT t.i FROM t.csv t, t.csv u WHERE t.k = u.k + t.n AND u.n = 3", "SELECT t.i FROM t.csv t LEFT JOIN t.csv u ON t.k = t.n + u.n", "SELECT t.i FROM t.csv t LOOKUP JOIN t.csv u ON t.k = t.n + u.n",
+	"SELECT t.i FROM t.csv t JOIN t.csv u ON t.k = u.k AND t.k = u.n WHERE t.n = u.n AND u.k = t.n + 1", "SELECT t.i FROM t.csv t JOIN t.csv u ON (t.k = u.k) = (t.n = u.n)",
+	"SELECT t.i FROM t.csv t JOIN t.csv u ON t.k = u.k JOIN t.csv w ON w.k = t.n + u.n", "SELECT t.i FROM t.csv t JOIN (SELECT k, count(n) AS c FROM t.csv x GROUP BY k) u ON t.k = u.c + t.n",
 	"SELECT count() FROM t.csv t", "SELECT count(*) FROM t.csv t", "SELECT sum() FROM t.csv t GROUP BY k",
 	"SELECT l FROM j.json t", "SELECT o FROM j.json t", "SELECT m FROM j.json t", "SELECT (1, 'a') AS tup FROM t.csv t",
 	"SELECT id FROM (SELECT id, unnest(l) AS u FROM j.json t) q", "SELECT u FROM (SELECT id, unnest(l) AS u FROM j.json t) q", "SELECT unnest(m) FROM j.json t",
